@@ -8,11 +8,14 @@ import (
 	"io"
 	"os"
 	"os/exec"
+	"reflect"
 	"runtime"
 	"strconv"
+	"strings"
 	"sync"
 	"syscall"
 	"time"
+	"unsafe"
 
 	"go.uber.org/zap/zapcore"
 )
@@ -21,8 +24,11 @@ import (
 // and a fake ticker (a Clock whose NewTicker returns &time.Ticker{C: ch}).
 // input  = (size (op ...) (outcome ...) mode)   op = (0 #bytes) Write | (1) Sync | (2) tick | (3) Stop
 //          outcome = (short err): short = -1 takes everything; mode 1 = raw bufio.Writer
-// output = (((res (ev ...)) ...) alive)   res = (0 n e) | (1 e) | (2 delivered) | (3 e)
+// output = (((res (ev ...)) ...) alive (live ...))   res = (0 n e) | (1 e) | (2 delivered) | (3 e)
 //          ev = (0 #p n) sink.Write(p) returned n | (1) sink.Sync()
+//          live = per operation: is THIS syncer's flush goroutine present once the operation has returned
+//                 (after a Stop: still there after Stop returned -- parked in flushLoop's select, or not gone
+//                 within the grace period); alive = a tick sent after the whole history is still served
 
 type c12out struct {
 	short int // -1 = everything
@@ -103,18 +109,186 @@ func (c *c12clock) NewTicker(time.Duration) *time.Ticker {
 }
 
 var c12stackBuf = make([]byte, 1<<20)
+var c12stackMu sync.Mutex
 var c12tickBroken bool
 var c12hangs int
+var c12leaks int
+
+// c12scan counts the flush goroutines of BufferedWriteSyncers in this process (total) and those of them
+// that sit in flushLoop's select (atSelect): parked there ("[select]"), or woken / not yet descheduled with
+// flushLoop as the top frame at the very pc at which a parked one is listed (the return address of the
+// select; learnt from the first goroutine seen parked -- see c12calibrate).
+// A goroutine that has not run yet is listed as "...initialize.gowrap1", afterwards as "...flushLoop";
+// both carry "created by ...(*BufferedWriteSyncer).initialize".
+var c12selectPC []byte
+
+func c12scan() (total, atSelect int) {
+	c12stackMu.Lock()
+	defer c12stackMu.Unlock()
+	var n int
+	for {
+		n = runtime.Stack(c12stackBuf, true)
+		if n < len(c12stackBuf) {
+			break
+		}
+		c12stackBuf = make([]byte, 2*len(c12stackBuf))
+	}
+	b := c12stackBuf[:n]
+	for len(b) > 0 {
+		var blk []byte
+		if i := bytes.Index(b, []byte("\n\n")); i >= 0 {
+			blk, b = b[:i], b[i+2:]
+		} else {
+			blk, b = b, nil
+		}
+		if !bytes.Contains(blk, []byte("BufferedWriteSyncer).flushLoop")) &&
+			!bytes.Contains(blk, []byte("BufferedWriteSyncer).initialize.gowrap")) &&
+			!bytes.Contains(blk, []byte("created by go.uber.org/zap/zapcore.(*BufferedWriteSyncer)")) {
+			continue
+		}
+		total++
+		lines := bytes.SplitN(blk, []byte("\n"), 4)
+		if len(lines) < 3 || !bytes.Contains(lines[1], []byte("BufferedWriteSyncer).flushLoop(")) {
+			continue // top frame is not flushLoop itself
+		}
+		pc := bytes.TrimSpace(lines[2])
+		if bytes.Contains(lines[0], []byte("[select")) {
+			if c12selectPC == nil {
+				c12selectPC = append([]byte(nil), pc...)
+			}
+			atSelect++
+		} else if c12selectPC != nil && bytes.Equal(pc, c12selectPC) {
+			atSelect++
+		}
+	}
+	return
+}
+
+// a panic in a helper goroutine must not kill the harness before the findings are written: it is recorded
+// and reported with the run it happened in
+var (
+	c12panicMu sync.Mutex
+	c12panics  []string
+)
+
+func c12guard() {
+	if p := recover(); p != nil {
+		c12panicMu.Lock()
+		c12panics = append(c12panics, fmt.Sprint(p))
+		c12panicMu.Unlock()
+	}
+}
+func c12takePanics() []string {
+	c12panicMu.Lock()
+	defer c12panicMu.Unlock()
+	ps := c12panics
+	c12panics = nil
+	return ps
+}
+
+// c12within runs f and reports whether it returned in time (f keeps running in its goroutine otherwise)
+func c12within(d time.Duration, f func()) bool {
+	done := make(chan struct{})
+	go func() {
+		defer close(done)
+		defer c12guard()
+		f()
+	}()
+	select {
+	case <-done:
+		return true
+	case <-time.After(d):
+		return false
+	}
+}
+
+// c12calibrate learns the pc of flushLoop's select from a syncer of its own (written to once, so that its
+// flush goroutine parks), before any case runs.
+func c12calibrate() bool {
+	ws := &zapcore.BufferedWriteSyncer{WS: &c12sink{}, Size: 8, FlushInterval: time.Hour, Clock: &c12clock{ch: make(chan time.Time)}}
+	ws.Write([]byte("x"))
+	deadline := time.Now().Add(2 * time.Second)
+	for c12selectPC == nil && time.Now().Before(deadline) {
+		c12scan()
+		time.Sleep(50 * time.Microsecond)
+	}
+	c12within(2*time.Second, func() { ws.Stop() }) // a Stop that blocks is reported by the cases, not here
+	return c12selectPC != nil
+}
 
 // is any flushLoop goroutine of a BufferedWriteSyncer present in this process?
-func c12loopPresent() bool {
-	n := runtime.Stack(c12stackBuf, true)
-	b := c12stackBuf[:n]
-	// a goroutine that has not run yet is listed as "...initialize.gowrap1", afterwards as
-	// "...flushLoop"; both carry "created by ...(*BufferedWriteSyncer).initialize"
-	return bytes.Contains(b, []byte("BufferedWriteSyncer).flushLoop")) ||
-		bytes.Contains(b, []byte("BufferedWriteSyncer).initialize.gowrap")) ||
-		bytes.Contains(b, []byte("created by go.uber.org/zap/zapcore.(*BufferedWriteSyncer)"))
+func c12loopPresent() bool { t, _ := c12scan(); return t > 0 }
+
+// c12probe observes the flush goroutine of ONE syncer: the counts at its creation are the baseline, so
+// goroutines leaked by earlier (already reported) cases do not leak into this case's observation.
+type c12probe struct{ n0, p0 int }
+
+func c12newProbe() c12probe { n, p := c12scan(); return c12probe{n, p} }
+
+func (pr c12probe) present() bool { t, _ := c12scan(); return t > pr.n0 }
+
+// afterStop: is the flush goroutine still at work although Stop has returned?  A correct Stop returns only
+// after flushLoop has closed done, i.e. after it left its select for good: the goroutine is then gone or on
+// its way out, never in the select again and never receiving another tick.  So "gone" and "in the select"
+// are definite answers at once; while neither holds a tick is offered (a loop that takes it and syncs the
+// sink after Stop has returned is alive); anything else is polled for a grace period (2 s, shortened to
+// 100 ms once a leak has been reported, so that a broken tree is reported in seconds).
+func (pr c12probe) afterStop(clk *c12clock, sink *c12sink) bool {
+	grace := 2 * time.Second
+	if c12leaks > 0 {
+		grace = 100 * time.Millisecond
+	}
+	deadline := time.Now().Add(grace)
+	for i := 0; ; i++ {
+		t, p := c12scan()
+		if t <= pr.n0 {
+			return false
+		}
+		if p > pr.p0 || time.Now().After(deadline) {
+			c12leaks++
+			return true
+		}
+		if clk != nil {
+			before := sink.nsyncs()
+			tm := time.NewTimer(50 * time.Microsecond)
+			select {
+			case clk.ch <- time.Time{}:
+				tm.Stop()
+				c12leaks++
+				for sink.nsyncs() == before && time.Now().Before(deadline) {
+					time.Sleep(20 * time.Microsecond)
+				}
+				return true
+			case <-tm.C:
+			}
+		} else if i < 50 {
+			runtime.Gosched()
+		} else {
+			time.Sleep(50 * time.Microsecond)
+		}
+	}
+}
+
+// c12reap ends a flush goroutine that Stop has left behind (only ever called after that has been recorded
+// as the case's observation / violation): closes the unexported stop channel, so that later cases run in a
+// clean process.  Best effort: if the field is not there any more the baseline counts keep cases apart.
+func c12reap(ws *zapcore.BufferedWriteSyncer, pr c12probe) {
+	func() {
+		defer func() { recover() }()
+		f := reflect.ValueOf(ws).Elem().FieldByName("stop")
+		if !f.IsValid() || f.Kind() != reflect.Chan || f.Type().ChanDir() != reflect.BothDir ||
+			f.Type().Elem() != reflect.TypeOf(struct{}{}) {
+			return
+		}
+		ch := *(*chan struct{})(unsafe.Pointer(f.UnsafeAddr()))
+		if ch != nil {
+			close(ch)
+		}
+	}()
+	deadline := time.Now().Add(200 * time.Millisecond)
+	for pr.present() && time.Now().Before(deadline) {
+		time.Sleep(50 * time.Microsecond)
+	}
 }
 
 func c12errClass(err error) int {
@@ -148,16 +322,18 @@ type c12res struct {
 	evs  []c12ev
 }
 
+const c12tickLimit = 4 * time.Second
+
 // send one tick to a live flush loop and wait until the sink has seen its Sync.
-// Returns delivered=false when no flush loop exists (any more).
-func c12tick(clk *c12clock, sink *c12sink, viol func(string)) bool {
-	if clk.made == 0 || !c12loopPresent() {
+// Returns delivered=false when this syncer has no flush loop (any more).
+func c12tick(clk *c12clock, sink *c12sink, pr c12probe, viol func(string)) bool {
+	if clk.made == 0 || !pr.present() {
 		return false
 	}
 	before := sink.nsyncs()
-	limit := 8 * time.Second
+	limit := c12tickLimit
 	if c12tickBroken {
-		limit = 5 * time.Millisecond // already reported once: do not spend 8s on every further tick
+		limit = 5 * time.Millisecond // already reported once: do not spend seconds on every further tick
 	}
 	deadline := time.Now().Add(limit)
 	for {
@@ -167,7 +343,7 @@ func c12tick(clk *c12clock, sink *c12sink, viol func(string)) bool {
 			t.Stop()
 			for sink.nsyncs() == before {
 				if time.Now().After(deadline) {
-					viol("tick received by the flush loop but the sink saw no Sync within 8s")
+					viol("tick received by the flush loop but the sink saw no Sync within 4s")
 					c12tickBroken = true
 					return true
 				}
@@ -175,11 +351,11 @@ func c12tick(clk *c12clock, sink *c12sink, viol func(string)) bool {
 			}
 			return true
 		case <-t.C:
-			if !c12loopPresent() {
+			if !pr.present() {
 				return false
 			}
 			if time.Now().After(deadline) {
-				viol("flush loop goroutine present but not receiving ticks for 8s")
+				viol("flush loop goroutine present but not receiving ticks for 4s")
 				c12tickBroken = true
 				return false
 			}
@@ -187,54 +363,66 @@ func c12tick(clk *c12clock, sink *c12sink, viol func(string)) bool {
 	}
 }
 
-func c12runBWS(size int, ops []c12op, outs []c12out, viol func(string)) (rs []c12res, alive bool) {
+// progress of the history being run, for the per-operation watchdog in c12emit
+type c12prog struct {
+	mu    sync.Mutex
+	idx   int
+	since time.Time
+}
+
+func (p *c12prog) at(i int) { p.mu.Lock(); p.idx, p.since = i, time.Now(); p.mu.Unlock() }
+func (p *c12prog) get() (int, time.Duration) {
+	p.mu.Lock()
+	defer p.mu.Unlock()
+	return p.idx, time.Since(p.since)
+}
+
+func c12runBWS(size int, ops []c12op, outs []c12out, viol func(string), prog *c12prog) (rs []c12res, alive bool, live []bool) {
+	pr := c12newProbe()
 	sink := &c12sink{outs: append([]c12out(nil), outs...)}
 	clk := &c12clock{ch: make(chan time.Time)}
 	ws := &zapcore.BufferedWriteSyncer{WS: sink, Size: size, FlushInterval: time.Hour, Clock: clk}
-	for _, o := range ops {
+	live = make([]bool, 0, len(ops))
+	for i, o := range ops {
+		prog.at(i)
 		e0 := sink.nev()
 		var r c12res
 		r.kind = o.kind
+		lv := false
 		switch o.kind {
 		case 0:
 			n, err := ws.Write(o.bs)
 			r.a, r.b = n, c12errClass(err)
+			lv = pr.present()
 		case 1:
 			r.a = c12errClass(ws.Sync())
+			lv = pr.present()
 		case 2:
-			if c12tick(clk, sink, viol) {
+			if c12tick(clk, sink, pr, viol) {
 				// the loop's Sync returns (and unlocks) right after the sink's Sync; the next
 				// operation takes the same mutex, so its events cannot overtake these
 				r.a = 1
 			}
+			lv = pr.present()
 		case 3:
 			r.a = c12errClass(ws.Stop())
-			if clk.made > 0 {
-				select {
-				case clk.ch <- time.Time{}:
-					viol("a tick was received by the flush loop after Stop returned")
-				default:
-				}
-			}
+			lv = pr.afterStop(clk, sink) // what a tick taken after Stop does to the sink is part of this operation's events
 		}
 		r.evs = sink.slice(e0, sink.nev())
 		rs = append(rs, r)
+		live = append(live, lv)
 	}
-	// liveness of the flush goroutine at the end of the history
-	if clk.made > 0 && c12loopPresent() {
-		alive = c12tick(clk, sink, viol)
+	// do ticks still reach the sink at the end of the history?
+	prog.at(len(ops))
+	if clk.made > 0 && pr.present() {
+		alive = c12tick(clk, sink, pr, viol)
 	}
-	// clean up, and check that Stop really ends the goroutine
+	// clean up, and check that a (further) Stop really ends the goroutine
+	prog.at(len(ops) + 1)
 	ws.Stop()
-	if clk.made > 0 {
-		deadline := time.Now().Add(5 * time.Second)
-		for c12loopPresent() {
-			if time.Now().After(deadline) {
-				viol("flushLoop goroutine still running 5s after Stop returned")
-				break
-			}
-			time.Sleep(50 * time.Microsecond)
-		}
+	if pr.afterStop(clk, sink) {
+		viol("flush goroutine of this syncer still running after the final (clean-up) Stop returned")
+		c12reap(ws, pr)
 	}
 	return
 }
@@ -274,7 +462,7 @@ func c12caseSX(size int, ops []c12op, outs []c12out, mode int) SX {
 	return L(I(size), L(xs...), L(os_...), I(mode))
 }
 
-func c12obsSX(rs []c12res, alive bool) SX {
+func c12obsSX(rs []c12res, alive bool, live []bool) SX {
 	xs := make([]SX, len(rs))
 	for i, r := range rs {
 		var rx SX
@@ -294,42 +482,77 @@ func c12obsSX(rs []c12res, alive bool) SX {
 		}
 		xs[i] = L(rx, L(es...))
 	}
-	return L(L(xs...), Bool(alive))
+	ls := make([]SX, len(live))
+	for i, l := range live {
+		ls[i] = Bool(l)
+	}
+	return L(L(xs...), Bool(alive), L(ls...))
 }
 
-// one case, run under a watchdog (a deadlock in the implementation must not hang the check)
+var c12opNames = []string{"Write", "Sync", "tick", "Stop"}
+
+// one case, run under a per-operation watchdog (an operation of the implementation that blocks must not
+// hang the check: it is reported with the history and the operation that did not return)
 func c12emit(c *Ctx, size int, ops []c12op, outs []c12out, mode int, class string) {
 	in := c12caseSX(size, ops, outs, mode)
+	if c12hangs >= 3 {
+		return // repeated hangs already reported: do not wait for every remaining case
+	}
 	type result struct {
 		rs    []c12res
 		alive bool
+		live  []bool
 	}
 	done := make(chan result, 1)
 	var vmu sync.Mutex
 	var viols []string
 	viol := func(s string) { vmu.Lock(); viols = append(viols, s); vmu.Unlock() }
+	prog := &c12prog{since: time.Now()}
+	panicked := make(chan string, 1)
 	go func() {
+		defer func() {
+			if p := recover(); p != nil {
+				i, _ := prog.get()
+				panicked <- fmt.Sprintf("panic escaped while running the history (at step %d of %d): %v", i, len(ops), p)
+			}
+		}()
 		if mode == 1 {
 			done <- result{rs: c12runBufio(size, ops, outs)}
 			return
 		}
-		rs, alive := c12runBWS(size, ops, outs, viol)
-		done <- result{rs, alive}
+		rs, alive, live := c12runBWS(size, ops, outs, viol, prog)
+		done <- result{rs, alive, live}
 	}()
-	if c12hangs >= 3 {
-		return // repeated hangs already reported: do not wait for every remaining case
-	}
-	limit := 60 * time.Second
+	// every operation returns within microseconds on a working tree (a tick: within c12tickLimit at worst)
+	limit := 10 * time.Second
 	if c12hangs > 0 {
-		limit = 3 * time.Second
+		limit = 2 * time.Second
 	}
 	var res result
-	select {
-	case res = <-done:
-	case <-time.After(limit):
-		c12hangs++
-		c12viol(c, "operation sequence did not complete within its time limit (60s, then 3s): deadlock", in)
-		return
+	poll := time.NewTicker(25 * time.Millisecond)
+	defer poll.Stop()
+wait:
+	for {
+		select {
+		case res = <-done:
+			break wait
+		case what := <-panicked:
+			c12viol(c, what, in)
+			return
+		case <-poll.C:
+			if i, d := prog.get(); d > limit {
+				c12hangs++
+				what := "the final tick probe"
+				switch {
+				case i < len(ops):
+					what = fmt.Sprintf("operation %d (%s) of the history", i, c12opNames[ops[i].kind])
+				case i == len(ops)+1:
+					what = "a further Stop after the history"
+				}
+				c12viol(c, fmt.Sprintf("%s did not return within its time limit (10s, then 2s): deadlock", what), in)
+				return
+			}
+		}
 	}
 	vmu.Lock()
 	for _, v := range viols {
@@ -338,6 +561,23 @@ func c12emit(c *Ctx, size int, ops []c12op, outs []c12out, mode int, class strin
 	vmu.Unlock()
 	nw, big, exact, empty, pre, post := 0, 0, 0, 0, 0, 0
 	seenStop := false
+	// lifecycle shape: Stops before the first Write (and a Write after them), Stops after it
+	earlyStops, lateStops, reuse, seenW := 0, 0, 0, false
+	for _, o := range ops {
+		switch o.kind {
+		case 0:
+			if !seenW && earlyStops > 0 {
+				reuse = 1
+			}
+			seenW = true
+		case 3:
+			if seenW {
+				lateStops++
+			} else {
+				earlyStops++
+			}
+		}
+	}
 	held := 0
 	for _, o := range ops {
 		switch o.kind {
@@ -379,9 +619,10 @@ func c12emit(c *Ctx, size int, ops []c12op, outs []c12out, mode int, class strin
 			flt = "1"
 		}
 	}
-	c.Emit(in, c12obsSX(res.rs, res.alive), map[string]string{"nt": nt, "class": class,
+	c.Emit(in, c12obsSX(res.rs, res.alive, res.live), map[string]string{"nt": nt, "class": class,
 		"ops": fmt.Sprint(len(ops)), "big": fmt.Sprint(big), "exact": fmt.Sprint(exact), "empty": fmt.Sprint(empty),
-		"preflush": fmt.Sprint(pre), "afterstop": fmt.Sprint(post), "faulty": flt})
+		"preflush": fmt.Sprint(pre), "afterstop": fmt.Sprint(post), "faulty": flt,
+		"earlystop": fmt.Sprint(earlyStops), "stops": fmt.Sprint(earlyStops + lateStops), "stopthenuse": fmt.Sprint(reuse)})
 }
 
 // Side-channel lines are collected and written after the last case: the driver produces one
@@ -391,8 +632,18 @@ var c12side []func(*Ctx)
 var c12violCount = map[string]int{}
 
 func c12viol(c *Ctx, what string, replay SX) {
-	c12violCount[what]++
-	if c12violCount[what] > 3 { // the first three inputs per kind of violation are enough
+	// the first three inputs per kind of violation are enough (kind = the text without its numbers)
+	kind := strings.Map(func(r rune) rune {
+		if r >= '0' && r <= '9' {
+			return -1
+		}
+		return r
+	}, what)
+	if i := strings.Index(kind, ": "); i >= 0 {
+		kind = kind[:i]
+	}
+	c12violCount[kind]++
+	if c12violCount[kind] > 3 {
 		return
 	}
 	c12side = append(c12side, func(c *Ctx) { c.Viol(what, replay) })
@@ -426,6 +677,11 @@ func c12(c *Ctx) {
 	}()
 	r := NewRNG(c.Seed)
 	base := runtime.NumGoroutine()
+	if c12calibrate() {
+		c12info(c, "select_pc", string(c12selectPC))
+	} else {
+		c12info(c, "select_pc", "not learnt: liveness after Stop judged by the [select] state and the tick probe only")
+	}
 	// ---- 1. directed corner cases
 	directed := []struct {
 		size int
@@ -449,6 +705,17 @@ func c12(c *Ctx) {
 		{4, []c12op{c12w("abcdefg"), c12w("hi"), c12S}, []c12out{{3, false}}},                                     // short direct write continues
 		{4, []c12op{c12w("ab"), c12S, c12X, c12X}, []c12out{{-1, false}, {-1, true}, {-1, true}, {-1, true}}},     // sync errors
 		{4, []c12op{c12w("ab"), c12X, c12X}, []c12out{{-1, true}}},                                                // zap's own "stop twice"
+		// lifecycle orders: Stop / Sync / tick before the first Write, use afterwards, Stop again (and again)
+		{4, []c12op{c12X, c12w("ab"), c12X}, nil},
+		{4, []c12op{c12X, c12w("ab"), c12w("cd"), c12X, c12T, c12S}, nil},
+		{4, []c12op{c12S, c12X, c12w("ab"), c12T, c12X, c12X, c12T}, nil},
+		{4, []c12op{c12T, c12X, c12S, c12X, c12w("abcdef"), c12S, c12X, c12w("g"), c12X}, nil},
+		{4, []c12op{c12X, c12X, c12X, c12w(""), c12X, c12S, c12X}, nil},
+		{0, []c12op{c12X, c12w("ab"), c12T, c12X, c12T}, nil},                                         // default size
+		{-1, []c12op{c12X, c12S, c12w("ab"), c12X, c12X}, nil},                                        // bufio's default size
+		{4, []c12op{c12X, c12w("ab"), c12X, c12T}, []c12out{{-1, true}, {-1, true}, {-1, true}}},      // every sink call fails
+		{4, []c12op{c12X, c12w("abc"), c12w("de"), c12X, c12X}, []c12out{{1, false}, {-1, true}}},     // short flush, failing Sync
+		{4, []c12op{c12w("ab"), c12X, c12T, c12w("cd"), c12X, c12T}, []c12out{{0, true}, {-1, true}}}, // Stop whose flush and Sync fail
 	}
 	for _, d := range directed {
 		c12emit(c, d.size, d.ops, d.outs, 0, "directed")
@@ -472,6 +739,57 @@ func c12(c *Ctx) {
 		}
 	}
 	rec(nil)
+	// ---- 2b. lifecycle orders, exhaustively: every history of length <= L over {Write, Sync, tick, Stop}
+	// (Stop before the first Write, Write after Stop, repeated Stop, Sync/tick before and after Stop, in
+	// every order), judged on per-operation goroutine liveness, tick delivery and the final tick
+	Llife := 6
+	if c.Thorough {
+		Llife = 8
+	}
+	lalpha := []c12op{c12w("ab"), c12S, c12T, c12X}
+	var lrec func(prefix []c12op, emitFrom int)
+	lrec = func(prefix []c12op, emitFrom int) {
+		if len(prefix) >= emitFrom {
+			c12emit(c, 3, prefix, nil, 0, "life-exh")
+		}
+		if len(prefix) < Llife {
+			for _, a := range lalpha {
+				lrec(append(append([]c12op(nil), prefix...), a), emitFrom)
+			}
+		}
+	}
+	lrec(nil, 1)
+	// the same orders (length <= 4; thorough: 5) over sinks that fail: the lifecycle must not depend on
+	// what the sink answers -- every call fails / the n-th call fails / short writes
+	Lf := 4
+	if c.Thorough {
+		Lf = 5
+	}
+	allFail := make([]c12out, 16)
+	for i := range allFail {
+		allFail[i] = c12out{short: -1, err: true}
+	}
+	scripts := [][]c12out{
+		allFail,
+		{{0, true}},
+		{{-1, false}, {-1, true}},
+		{{1, false}, {-1, false}, {0, true}},
+		{{-1, false}, {-1, false}, {-1, true}, {1, true}},
+	}
+	var frec func(prefix []c12op)
+	frec = func(prefix []c12op) {
+		if len(prefix) >= 2 {
+			for _, sc := range scripts {
+				c12emit(c, 3, prefix, sc, 0, "life-exh-faulty")
+			}
+		}
+		if len(prefix) < Lf {
+			for _, a := range lalpha {
+				frec(append(append([]c12op(nil), prefix...), a))
+			}
+		}
+	}
+	frec(nil)
 	// ---- 3. fault enumeration: fixed history, every position x every kind of failure
 	fh := []c12op{c12w("ab"), c12w("cde"), c12w("fghijk"), c12S, c12w("l"), c12T, c12w("mn"), c12X, c12w("o"), c12X}
 	for pos := 0; pos < 10; pos++ {
@@ -571,6 +889,63 @@ func c12(c *Ctx) {
 		}
 		c12emit(c, size, ops, outs, mode, fmt.Sprintf("rand%d", style))
 	}
+	// ---- 4b. random lifecycle histories: a prefix of Stop/Sync/tick before the first Write in most of
+	// them, then Write/Sync/tick/Stop in equal shares; every size rule; a failing sink in 1/3
+	NL := 1500
+	if c.Thorough {
+		NL = 30000
+	}
+	for i := 0; i < NL; i++ {
+		size := r.Range(1, 16)
+		switch r.Intn(8) {
+		case 0:
+			size = 0
+		case 1:
+			size = -r.Range(1, 9)
+		}
+		var ops []c12op
+		if r.Chance(75) {
+			for j, n := 0, r.Range(1, 4); j < n; j++ {
+				ops = append(ops, []c12op{c12X, c12X, c12S, c12T}[r.Intn(4)])
+			}
+		}
+		nops := r.Range(2, 14)
+		if c.Thorough && r.Chance(10) {
+			nops = r.Range(14, 60)
+		}
+		for j := 0; j < nops; j++ {
+			switch r.Intn(4) {
+			case 0:
+				es := size
+				if es <= 0 {
+					es = 8
+				}
+				ops = append(ops, c12op{kind: 0, bs: c12randBytes(r, r.Range(0, es+2))})
+			case 1:
+				ops = append(ops, c12S)
+			case 2:
+				ops = append(ops, c12T)
+			default:
+				ops = append(ops, c12X)
+			}
+		}
+		var outs []c12out
+		if r.Chance(33) {
+			for j, n := 0, r.Range(1, 10); j < n; j++ {
+				switch y := r.Intn(6); {
+				case y < 2:
+					outs = append(outs, c12out{short: -1})
+				case y < 4:
+					outs = append(outs, c12out{short: -1, err: true})
+				case y == 4:
+					outs = append(outs, c12out{short: r.Intn(3), err: true})
+				default:
+					outs = append(outs, c12out{short: r.Range(1, 4), err: false}) // never (0, nil)
+				}
+			}
+		}
+		c12emit(c, size, ops, outs, 0, "rand-life")
+	}
 	// ---- 5. concurrent liveness runs: writers, syncers, ticks and stoppers; must finish, must not leak
 	runs := 300
 	if c.Thorough {
@@ -588,6 +963,9 @@ func c12(c *Ctx) {
 	}
 	if n := runtime.NumGoroutine(); n > base+2 || c12loopPresent() {
 		c12viol(c, fmt.Sprintf("goroutines leaked after all syncers were stopped: %d at start, %d now", base, n), L())
+	}
+	for _, p := range c12takePanics() {
+		c12viol(c, "panic escaped from a helper goroutine (calibration / concurrent run): "+p, L())
 	}
 	c12info(c, "goroutines_start", strconv.Itoa(base))
 	c12info(c, "goroutines_end", strconv.Itoa(runtime.NumGoroutine()))
@@ -625,7 +1003,21 @@ func c12stress(c *Ctx, r *RNG, runs int) {
 		sink := &c12csink{}
 		clk := &c12clock{ch: make(chan time.Time)}
 		ws := &zapcore.BufferedWriteSyncer{WS: sink, Size: size, FlushInterval: time.Hour, Clock: clk}
-		desc := L(Str("stress"), I(size), I(nw), I(ns), I(nstop), I(per), U(c.Seed), I(k))
+		pr := c12newProbe()
+		// in a third of the runs the syncer is stopped (once or twice) before anybody has used it
+		pre := 0
+		if r.Chance(33) {
+			pre = r.Range(1, 2)
+		}
+		desc := L(Str("stress"), I(size), I(nw), I(ns), I(nstop), I(per), U(c.Seed), I(k), I(pre))
+		if pre > 0 && !c12within(10*time.Second, func() {
+			for i := 0; i < pre; i++ {
+				ws.Stop()
+			}
+		}) {
+			c12viol(c, "Stop on a syncer that has not been used did not return within 10s (deadlock)", desc)
+			return
+		}
 		var wg sync.WaitGroup
 		quit := make(chan struct{})
 		lens := make([]int, nw)
@@ -634,6 +1026,7 @@ func c12stress(c *Ctx, r *RNG, runs int) {
 			lens[i] = r.Range(0, 6)
 			go func(id, pad int) {
 				defer wg.Done()
+				defer c12guard()
 				for j := 0; j < per; j++ {
 					line := []byte(fmt.Sprintf("%d:%d:%s\n", id, j, bytes.Repeat([]byte{'x'}, pad)))
 					ws.Write(line)
@@ -644,6 +1037,7 @@ func c12stress(c *Ctx, r *RNG, runs int) {
 			wg.Add(1)
 			go func() {
 				defer wg.Done()
+				defer c12guard()
 				for j := 0; j < per/2; j++ {
 					ws.Sync()
 					runtime.Gosched()
@@ -667,6 +1061,7 @@ func c12stress(c *Ctx, r *RNG, runs int) {
 			wg.Add(1)
 			go func() {
 				defer wg.Done()
+				defer c12guard()
 				if !early {
 					time.Sleep(time.Duration(50) * time.Microsecond)
 				}
@@ -683,22 +1078,26 @@ func c12stress(c *Ctx, r *RNG, runs int) {
 			return
 		}
 		// a final write + Stop sequence from this goroutine, then everything must be in the sink
-		ws.Write([]byte("end:0:\n"))
-		ws.Stop()
-		ws.Sync()
+		if !c12within(10*time.Second, func() {
+			ws.Write([]byte("end:0:\n"))
+			ws.Stop()
+			ws.Sync()
+		}) {
+			c12viol(c, "Write; Stop; Sync after a concurrent Write/Sync/Stop/tick mix did not return within 10s (deadlock)", desc)
+			close(quit)
+			return
+		}
 		close(quit)
 		<-tdone
-		if clk.made > 0 {
-			deadline := time.Now().Add(5 * time.Second)
-			for c12loopPresent() && time.Now().Before(deadline) {
-				time.Sleep(50 * time.Microsecond)
-			}
-			if c12loopPresent() {
-				c12viol(c, "flushLoop goroutine still running after Stop returned (concurrent run)", desc)
-			}
+		if pr.afterStop(nil, nil) {
+			c12viol(c, "flushLoop goroutine still running after Stop returned (concurrent run)", desc)
+			c12reap(ws, pr)
 		}
 		if sink.bad != "" {
 			c12viol(c, sink.bad, desc)
+		}
+		for _, p := range c12takePanics() {
+			c12viol(c, "panic escaped during a concurrent run: "+p, desc)
 		}
 		// whole-line rule + per-writer order + nothing lost
 		next := make(map[string]int)
